@@ -720,13 +720,20 @@ theorem fixLoop_neg (S : Sys) (eps mb mu : Rat) (st : St) (v : Nat) (rest : List
     fixLoop S eps mb mu st (v :: rest) = fixLoop S eps mb mu (fixVar S eps st v (mu / (S.var v).penalty)) rest := by
   rw [fixLoop]; simp only [h, if_true]
 theorem fixLoop_eq (S : Sys) (eps mb mu : Rat) (st : St) (v : Nat) (rest : List Nat) (h : ¬ mb < 0)
-    (h2 : dblEq mb ((S.var v).bound * (S.var v).penalty) eps = true) :
+    (h2 : 0 < (S.var v).bound ∧ dblEq mb ((S.var v).bound * (S.var v).penalty) eps = true) :
     fixLoop S eps mb mu st (v :: rest) = fixLoop S eps mb mu (fixVar S eps st v (S.var v).bound) rest := by
-  rw [fixLoop]; simp only [h, if_false, h2, if_true]
+  rw [fixLoop]; simp only [h, if_false, h2.1, h2.2, decide_true, Bool.and_self, if_true]
 theorem fixLoop_skip (S : Sys) (eps mb mu : Rat) (st : St) (v : Nat) (rest : List Nat) (h : ¬ mb < 0)
-    (h2 : ¬ dblEq mb ((S.var v).bound * (S.var v).penalty) eps = true) :
+    (h2 : ¬ (0 < (S.var v).bound ∧ dblEq mb ((S.var v).bound * (S.var v).penalty) eps = true)) :
     fixLoop S eps mb mu st (v :: rest) = fixLoop S eps mb mu st rest := by
-  rw [fixLoop]; simp [h, h2]
+  rw [fixLoop]
+  have h3 : (decide (0 < (S.var v).bound) && dblEq mb ((S.var v).bound * (S.var v).penalty) eps) = false := by
+    cases hd : dblEq mb ((S.var v).bound * (S.var v).penalty) eps
+    · simp
+    · by_cases hb : 0 < (S.var v).bound
+      · exact absurd ⟨hb, hd⟩ h2
+      · simp [hb]
+  simp only [h, if_false, h3, Bool.false_eq_true]
 
 theorem fixLoop_inv (S : Sys) (hwf : WF S) (m mb : Rat) (hm : 0 < m) (sv : List Nat) :
     ∀ st : St, InvG S m st.fixed st.value → InvK S m st 0 0 [] → InvL S st →
@@ -797,13 +804,11 @@ theorem fixLoop_inv (S : Sys) (hwf : WF S) (m mb : Rat) (hm : 0 < m) (sv : List 
       · simp only [hmb, if_true]; exact this.2.2.2.2.2.1
       · exact this.2.2.2.2.2.2 u hu hcond
     · have hmbp := hmb2 hmb
-      by_cases heq : dblEq mb ((S.var v).bound * (S.var v).penalty) 0 = true
-      · rw [fixLoop_eq S 0 mb m st v rest hmb heq]
+      by_cases hc : 0 < (S.var v).bound ∧ dblEq mb ((S.var v).bound * (S.var v).penalty) 0 = true
+      · rw [fixLoop_eq S 0 mb m st v rest hmb hc]
+        have heq := hc.2
         have heq' := (dblEq_zero _ _).mp heq
-        have hb : 0 < (S.var v).bound := by
-          by_contra h
-          have : (S.var v).bound * (S.var v).penalty ≤ 0 := mul_nonpos_of_nonpos_of_nonneg (by linarith) (le_of_lt hpv)
-          linarith [hmbp.1]
+        have hb : 0 < (S.var v).bound := hc.1
         have := step (S.var v).bound hb (by linarith [hmbp.2]) (fun _ => le_refl _)
         simp only [] at this
         refine ⟨this.1, this.2.1, this.2.2.1, this.2.2.2.1, this.2.2.2.2.1, ?_⟩
@@ -812,8 +817,14 @@ theorem fixLoop_inv (S : Sys) (hwf : WF S) (m mb : Rat) (hm : 0 < m) (sv : List 
         rcases hu with rfl | hu
         · simp only [hmb, if_false]; exact this.2.2.2.2.2.1
         · exact this.2.2.2.2.2.2 u hu hcond
-      · rw [fixLoop_skip S 0 mb m st v rest hmb heq]
-        have hne : mb ≠ (S.var v).bound * (S.var v).penalty := fun h => heq ((dblEq_zero _ _).mpr h)
+      · rw [fixLoop_skip S 0 mb m st v rest hmb hc]
+        have hne : mb ≠ (S.var v).bound * (S.var v).penalty := by
+          intro h
+          apply hc
+          refine ⟨?_, (dblEq_zero _ _).mpr h⟩
+          by_contra hb0
+          have : (S.var v).bound * (S.var v).penalty ≤ 0 := mul_nonpos_of_nonpos_of_nonneg (by linarith) (le_of_lt hpv)
+          linarith [hmbp.1]
         have h2 := ih st hG hK hL (fun u hu => hsv u (by simp [hu])) hnd'
           (fun h u hu => hmb1 h u (by simp [hu])) hmb2
         refine ⟨h2.1, h2.2.1, h2.2.2.1, ?_, h2.2.2.2.2.1, ?_⟩
